@@ -3,7 +3,7 @@ from .core import Variant
 
 INTERPOSE = ["-DLIBLCB_VERIF"] + ["-D%s=verif_%s" % (f, f) for f in (
     "calloc", "free", "close", "write", "read", "pipe2", "epoll_create1", "epoll_ctl",
-    "timerfd_create", "timerfd_settime", "pthread_create", "pthread_join")]
+    "timerfd_create", "timerfd_settime", "pthread_create", "pthread_join", "pthread_mutex_unlock")]
 
 
 def repo_src(path):
